@@ -69,6 +69,15 @@ CHECKS = {
               "model tied to the code on a malformed stream comparing (type, class_name, field_name / missing / unknown); oracle: "
               "isinstance JSONWizardError, str(e) returns, independent path-based attribution for scalar positions"),
         technique='Lean 4 proof over a hand model + generated lattice + differential correspondence', ref='4 C14'),
+    'C15': dict(
+        text=("Lean theorems: repr-quoting of spliced text reads back as exactly that text for every string (induction over the "
+              "characters, hex escapes included); the v1 naming schemes (field variables, type locals, helper families) are pairwise "
+              "distinct for all names; the generator-internal names, the shapes of user-derived names and the scope rows of every "
+              "function generated for the battery are regenerated from the generated code on every run and checked by kernel "
+              "evaluation. Tie + oracle: renaming equivariance of dump / load on class models renamed into adversarial names drawn from "
+              "those tables, symtable scope check of every captured generated function, Lean pyRepr/pyUnquote vs repr/literal_eval. "
+              "The statement for every class of every program is carried by the oracle (sampled), not by a theorem about the generators"),
+        technique='Lean 4 proof over quoting / naming models + tables regenerated from generated code + renaming-equivariance oracle', ref='4 C15'),
     'C17': dict(
         text=("Lean theorems over a model of both pattern engines (default: generated pattern_to_dt incl. the '-'/'+' time variant; v1: "
               "generated load_to_pattern with class-level generation state): value = strptime under the first matching pattern converted "
